@@ -74,5 +74,7 @@ if __name__ == '__main__':
         main(sys.argv[2:], rename={'A': 'C', 'B': 'D'})
     elif sys.argv[1] == '--wave4':
         main(sys.argv[2:], rename={'A': 'E', 'B': 'F'})
+    elif sys.argv[1] == '--wave5':
+        main(sys.argv[2:], rename={'A': 'G', 'B': 'H'})
     else:
         main(sys.argv[1:])
